@@ -197,6 +197,12 @@ def main():
         ([12000., 12250., 12400.], [100., 160., 220.], None, 0.0, None),
         ([12000., 12300.], [100., 180.], {(0, 1): 80.0}, 10.0, None),
     ]
+    # the same uncoupled trimer listed in orders that are not energy sorted
+    # (a cyclic order is not its own inverse permutation)
+    cases += [
+        ([12250., 12400., 12000.], [160., 220., 100.], None, 0.0, None),
+        ([12400., 12000., 12250.], [220., 100., 160.], None, 10.0, None),
+    ]
     if ck.thorough:
         cases += [
             ([12000., 12250., 12400.], [90., 140., 200.], None, 30.0, None),
